@@ -555,7 +555,7 @@ Section NoPanic.
     first [ apply np_validate | apply np_edit_history | apply np_edit_history_next | apply np_edit_history_search
           | apply np_complete_hint_line | apply np_edit_yank | apply np_edit_kill | apply np_edit_insert_text
           | apply np_edit_insert | apply np_edit_replace_char | apply np_edit_overwrite_char | apply np_line_up
-          | apply np_line_down | apply np_restore | apply np_undo
+          | apply np_line_down | apply np_restore | apply np_undo | apply np_changes_end
           | (apply np_grouped; [total_side|good_side|kg_side])
           | (apply np_lb_changes; [total_side|good_side|kg_side])
           | (apply np_moved; [total_side|pure_side; fail|kg_side])
